@@ -435,20 +435,29 @@ def cbmc_io(prop, tier, seed):
             jobs.append(('constant %d' % v, ['-DCONST=%s' % c_lit(v)], 120))
         r.bound = 'CBMC on the real io.c: all values -9999..9999 symbolically (both variants) + %d boundary constants (0, +-1, +-(10^k-1), +-10^k, 10^k+1 for k=1..18, +-2^31, +-2^32, INT64_MAX, INT64_MIN); loop unwound 22x with unwinding assertions' % len(io_boundaries())
     else:
-        # partition of the whole int64 domain into digit classes x sign; complete iff every class finishes
+        # digit classes 1..8 (x sign) are covered completely (symbolic over the whole class; the 8-digit class takes
+        # ~5 min, the 9-digit class 15 min, larger ones do not finish).  Classes of 9..19 digits are SAMPLED:
+        # symbolic windows of 10^4 consecutive values at both ends of the class and at seeded random places.
+        import random
+        rnd = random.Random(seed)
         bounds = [0] + [10**k for k in range(1, 19)] + [2**63]
         for k in range(len(bounds) - 1):
             lo, hi = bounds[k], bounds[k + 1] - 1
-            jobs.append(('%d-digit non-negative' % (k + 1), ['-DLO=%s' % c_lit(lo), '-DHI=%s' % c_lit(hi)], 1800))
-            nlo, nhi = -bounds[k + 1] + (0 if k + 1 < len(bounds) - 1 else 0), -max(lo, 1)
-            if k + 1 == len(bounds) - 1:
-                nlo = -2**63
+            if k + 1 <= 8:
+                jobs.append(('%d-digit non-negative (whole class)' % (k + 1), ['-DLO=%s' % c_lit(lo), '-DHI=%s' % c_lit(hi)], 1200))
+                jobs.append(('%d-digit negative (whole class)' % (k + 1), ['-DLO=%s' % c_lit(-hi), '-DHI=%s' % c_lit(-max(lo, 1))], 1200))
             else:
-                nlo = -(bounds[k + 1] - 1)
-            jobs.append(('%d-digit negative' % (k + 1), ['-DLO=%s' % c_lit(nlo), '-DHI=%s' % c_lit(nhi)], 1800))
+                starts = [lo, hi - 9999] + [rnd.randrange(lo, hi - 9999) for _ in range(6)]
+                for st0 in starts:
+                    jobs.append(('%d-digit window %d..+9999' % (k + 1, st0), ['-DLO=%s' % c_lit(st0), '-DHI=%s' % c_lit(st0 + 9999)], 300))
+                    nlo, nhi = -(st0 + 9999), -st0
+                    jobs.append(('%d-digit window %d..+9999' % (k + 1, nlo), ['-DLO=%s' % c_lit(nlo), '-DHI=%s' % c_lit(nhi)], 300))
+        jobs.append(('window at INT64_MIN', ['-DLO=%s' % c_lit(-2**63), '-DHI=%s' % c_lit(-2**63 + 9999)], 300))
         for v in io_boundaries():
             jobs.append(('constant %d' % v, ['-DCONST=%s' % c_lit(v)], 120))
-        r.bound = 'CBMC on the real io.c: the int64 domain partitioned into 19 digit classes x sign (30 min cap per class) + boundary constants'
+        r.bound = ('CBMC on the real io.c: all values of 1..8 decimal digits (both signs) symbolically, class by class (complete for these classes '
+                   'if none hits its 20 min cap); for 9..19 digits symbolic windows of 10^4 consecutive values at both ends of every class and at 6 seeded '
+                   'random places per class and sign, the window at INT64_MIN, and the boundary constants (bounded)')
     undecided = []
     fails = []
 
@@ -469,9 +478,6 @@ def cbmc_io(prop, tier, seed):
     r.functions = ['lang/driver/infrastructure/io.c: print_i64, println_i64']
     r.samples = [{'cbmc_io_case': j[0]} for j in jobs[:3]]
     r.assumptions = ['write(2) is replaced by a recording stub; CBMC 6.11 with its C semantics (LP64); digit classes that hit the time cap are reported as undecided, never as proved: %s' % (undecided or 'none')]
-    if tier == 'thorough' and not undecided and not fails:
-        r.level = 'proof'
-        r.obligations = r.discharged = len(jobs)
     for j, out in fails:
         failed = re.findall(r'\[([^\]]+)\] line (\d+) (.*?): FAILURE', out)
         m = re.match(r'constant (-?\d+)', j[0])
